@@ -96,6 +96,10 @@ func (k *Walker) Populate(n int) []string {
 		k.W.Write("idtwin/ta/f", twinTreeA)
 		k.W.Write("idtwin/tb/f", twinTreeB)
 		names = append(names, "idtwin/a.txt", "idtwin/b.txt", "idtwin/ta/f", "idtwin/tb/f")
+		for i, n := range hashTwinNames {
+			k.W.Write(n, []byte(fmt.Sprintf("checksum twin %d\n", i)))
+			names = append(names, n)
+		}
 	}
 	k.W.C.Count("scale.populated-histories")
 	return names
@@ -650,8 +654,14 @@ func (k *Walker) Do(action string) {
 		}
 	case "edit-touch":
 		if p, ok := k.pick(k.wtFiles()); ok {
-			w.Tag = map[string]string{"meta": "mtime-only"}
-			w.Edit("touch", p, nil)
+			if k.chance(40) {
+				// mode bits only: executable, private, read-only, set-user-id, set-group-id, sticky
+				w.Tag = map[string]string{"meta": "mode-only"}
+				w.Chmod(p, []int64{0o755, 0o600, 0o444, 0o4755, 0o2664, 0o1644, 0o6775, 0o644}[k.R.IntN(8)])
+			} else {
+				w.Tag = map[string]string{"meta": "mtime-only"}
+				w.Edit("touch", p, nil)
+			}
 		}
 	case "edit-rm":
 		if p, ok := k.pick(k.wtFiles()); ok && p != ".goitignore" {
